@@ -68,9 +68,11 @@ package ice
 //@   ensures tcptype-first: c.tcpType != TCPTypeUnspecified ==> result[0].Key == "tcptype" && result[0].Value == c.tcpType.String()
 
 //@ func (*candidateBase).transportAddressEqual
-//@   props C16
+//@   props C16 C06
 //@   pure
 //@   ensures reflexive: other != nil && baseOf(other) == c ==> result
+//@   ensures C06 for-resolved-candidates-the-resolved-address-decides-not-its-spelling: other != nil && c.resolvedAddr != nil && baseOf(other).resolvedAddr != nil ==> result == (c.networkType == baseOf(other).networkType && c.tcpType == baseOf(other).tcpType && (c.resolvedAddr == baseOf(other).resolvedAddr || addrEqual(c.resolvedAddr, baseOf(other).resolvedAddr)))
+//@   ensures C06 a-resolved-and-an-unresolved-candidate-differ: other != nil && (c.resolvedAddr != nil) != (baseOf(other).resolvedAddr != nil) ==> !result
 
 //@ func (*candidateBase).Equal
 //@   props C16
